@@ -78,7 +78,7 @@ def _summary(out, what):
         raise vlib.ToolError(f"no summary from harness ({what}): {out[-500:]}")
 
 
-def _report_bad(rep, kind, path, limit=200):
+def _report_bad(rep, kind, path, limit=20):
     n = 0
     for rec in vlib.read_ndjson(path):
         n += 1
@@ -134,7 +134,7 @@ def _trace_sharded(rep, kind, trace_path, res_path, shards, timeout):
                 rejected += 1
                 rejs.append(json.loads(lines[start + idx - 1]))
                 start = start + idx
-                if rejected >= 5:
+                if rejected >= 2:
                     break
             part += 1
         return validated, rejs, st, [f"{res_path}.s{k}.{i}" for i in range(part + 1)]
